@@ -3,7 +3,7 @@ import dataclasses
 from obligations import C08 as _c08, C09 as _c09
 from obligations.C08 import LFHT_TRUSTED
 
-SEL = ('C08.O5.add_bucket', 'C06.O1.add_unique', 'C06.O1.add_unique_small', 'C06.O2.replace', 'C06.O2.replace_removed', 'C06.O2.replace_api', 'C08.O4.next_duplicate', 'C07.O1.del', 'C07.O1.del_twice',
+SEL = ('C08.O7.small.next_replaced', 'C08.O5.add_bucket', 'C06.O1.add_unique', 'C06.O1.add_unique_small', 'C06.O2.replace', 'C06.O2.replace_removed', 'C06.O2.replace_api', 'C08.O4.next_duplicate', 'C07.O1.del', 'C07.O1.del_twice',
        'C06.O3.cds_lfht_add', 'C06.O3.cds_lfht_add_unique', 'C06.O3.cds_lfht_add_replace', 'C06.O3.cds_lfht_del')
 OBLIGATIONS = [o for o in _c08.OBLIGATIONS if o.name in SEL]
 # resize ordering is part of uniqueness 'with concurrent resizes': a grow publishes the size only after populating, a shrink waits a
